@@ -960,13 +960,16 @@ def _r3_mkdofpv(ctx):
         okH = okH and good
     ctx.check(okN and okH, "mkdofpv: table keys and requested keys are the same encoding id*k + component (k = 10 > 6 on both sides)", fn,
               None if okN and okH else {"requested": _show(rows[0][1].N), "table": _show(rows[0][1].H)})
-    if part_ok and part_odd is not None:
+    if not okH:
+        pass                        # the table keys were not recognised: nothing can be said about the table they come from
+    elif part_ok and part_odd is not None:
         ctx.error("mkdofpv: how the table is restricted to the requested set is not recognised (rule knows uset.loc[mksetpv(uset, 'p', nasset)])", fn,
                   {"regime": part_odd[0].describe(), "table": _show(part_odd[1])})
         return bound
-    ctx.check(part_ok and part_seen, "mkdofpv: a DataFrame table is restricted to the requested set by mksetpv(uset, 'p', nasset) before the look-up "
-                                     "(positions are positions within that set); an array table is searched only for nasset == 'p'", fn,
-              None if part_ok and part_seen else ({"regime": part_bad[0].describe(), "table": _show(part_bad[1])} if part_bad else "no partition found"))
+    else:
+        ctx.check(part_ok and part_seen, "mkdofpv: a DataFrame table is restricted to the requested set by mksetpv(uset, 'p', nasset) before the look-up "
+                                         "(positions are positions within that set); an array table is searched only for nasset == 'p'", fn,
+                  None if part_ok and part_seen else ({"regime": part_bad[0].describe(), "table": _show(part_bad[1])} if part_bad else "no partition found"))
     # the request is expanded (ids -> 6 DOF, 123456 -> digits) before the keys are built
     par = fn.args.args[2].arg
     good, odd = True, None
